@@ -427,6 +427,11 @@ def random_graph(rng):
 def run_history(rng, viol, situations):
     from gaftools.gfa import GFA
     ids = [f"h{i}" for i in range(rng.randint(2, 8))]
+    int_ids = rng.random() < 0.25
+    if int_ids:
+        # add_node accepts any id and files it under str(id) (integer ids as a caller numbering its nodes has them)
+        ids = [str(i) for i in range(1, rng.randint(3, 9))]
+        situations["history_integer_ids"] += 1
     g = GFA()
     model = Model()
     ops = []
@@ -442,7 +447,7 @@ def run_history(rng, viol, situations):
             if n in deleted_once and n not in model.nodes:
                 situations["history_readd_deleted"] += 1
             ops.append(("add_node", n, seq))
-            g.add_node(n, seq)
+            g.add_node(int(n) if int_ids and rng.random() < 0.7 else n, seq)
             model.add_node(n, seq)
         elif r < 0.75:
             a, b = rng.choice(live), rng.choice(live)
@@ -491,7 +496,46 @@ def run_history(rng, viol, situations):
             for v in viol[before:]:
                 v.setdefault("witness", {})["ops"] = ops
             break
+    if not viol and model.nodes and rng.random() < 0.35:
+        # a component taken out as its own graph (graph_from_comp, as order_gfa does) and edited there:
+        # the sub-graph must equal the model of that component after the deletion, and the graph it
+        # was taken from must still be a graph (adjacency symmetric on both ends of whatever it holds)
+        adj = model.adj()
+        comps = bcc.components(adj)
+        comp = set(rng.choice(sorted(sorted(c) for c in comps)))
+        child = g.graph_from_comp(comp)
+        cm = Model()
+        for n in model.nodes:
+            if n in comp:
+                cm.add_node(n, model.nodes[n])
+        for l in model.links:
+            if l[0] in comp:
+                cm.add_link(*l)
+        check_structure(child, cm, viol, f"sub-graph of component {sorted(comp)}")
+        n = rng.choice(sorted(comp))
+        ops.append(("graph_from_comp+remove_node", sorted(comp), n))
+        child.remove_node(n)
+        cm.remove_node(n)
+        situations["history_subgraph_deletion"] += 1
+        check_structure(child, cm, viol, f"sub-graph after remove_node({n})")
+        check_symmetric(g, viol, f"graph a sub-graph was taken from, after remove_node({n}) in the sub-graph")
+        for v in viol:
+            v.setdefault("witness", {})["ops"] = ops
     return ops
+
+
+def check_symmetric(g, viol, where):
+    for nid, node in g.nodes.items():
+        for side, name in ((0, "start"), (1, "end")):
+            for (m, side_m, ov) in getattr(node, name):
+                if m not in g.nodes:
+                    viol.append({"kind": "edit_dangling", "msg": f"{where}: {nid}.{name} refers to deleted node {m}"})
+                    continue
+                other = g.nodes[m].start if side_m == 0 else g.nodes[m].end
+                if (nid, side, ov) not in other:
+                    viol.append({"kind": "edit_asymmetric",
+                                 "msg": f"{where}: ({m},{side_m},{ov}) in {nid}.{name} but ({nid},{side},{ov}) "
+                                        f"not on the other end"})
 
 
 def run_case(ctx, rng, index, casedir):
